@@ -49,6 +49,9 @@ type c34Scenario struct {
 	// re-emits the sender's application-epoch records under the same keys in another legal framing and injects up to
 	// KeyUpdates KeyUpdate messages (update_requested or not), which the receiving endpoint has to process in Read while
 	// its other goroutines are writing.
+	// LingerMs: after its reader has seen the end of the inbound stream, a side waits this long before it calls Close
+	// (an application that still has work to do); the other side then faces a silent peer
+	LingerMs [2]int `json:"linger_ms,omitempty"`
 	Reframe    int `json:"reframe,omitempty"`
 	KeyUpdates int `json:"key_updates,omitempty"`
 	Tape     []int     `json:"tape,omitempty"`
@@ -78,6 +81,11 @@ func genC34(seed uint64, tier string) any {
 	sc.Renego = r.Pick([]int{2, 1, 1})
 	if sc.Engine == "B" && r.Chance(1, 4) {
 		sc.CancelMs = []int{1, 5, 50, 500}[r.Intn(4)]
+	}
+	for side := 0; side < 2; side++ {
+		if r.Chance(1, 4) {
+			sc.LingerMs[side] = []int{100, 3000, 6000, 9000}[r.Intn(4)]
+		}
 	}
 	if sc.Engine == "A" && sc.Version == vTLS13 && r.Chance(1, 2) {
 		sc.Reframe = 1 + r.Intn(3)
@@ -317,6 +325,14 @@ func execC34(t *testing.T, scAny any, keepLog bool) *Outcome {
 				sd.abrupt, sd.abruptAt = true, s.Steps+1
 			}
 		}
+		// a close_notify that could not be written completely (a write deadline moved by another goroutine expired in
+		// the middle of the alert record) leaves a cut record on the wire: the side ended abruptly
+		closeErr := func(sd *c34Side, err error) {
+			if ne, ok := err.(interface{ Timeout() bool }); ok && ne.Timeout() {
+				markAbrupt(sd)
+				o.count("probe.close_notify_timed_out", 1)
+			}
+		}
 		// every blocking call has a deadline: the property's precondition
 		base := 20 * time.Second
 		for side := 0; side < 2; side++ {
@@ -378,13 +394,16 @@ func execC34(t *testing.T, scAny any, keepLog bool) *Outcome {
 						break
 					}
 				}
+				if sd.cleanEOF && sc.LingerMs[side] > 0 {
+					s.Sleep(time.Duration(sc.LingerMs[side]) * time.Millisecond)
+				}
 				if sd.closedAt < 0 {
 					sd.closedAt = len(sd.writes)
 				}
 				if sd.inFlight > 0 {
 					markAbrupt(sd)
 				}
-				sd.conn.Close()
+				closeErr(sd, sd.conn.Close())
 			})
 		}
 		wid := 0
@@ -496,7 +515,7 @@ func execC34(t *testing.T, scAny any, keepLog bool) *Outcome {
 						if sd.closedAt < 0 {
 							sd.closedAt = len(sd.writes)
 						}
-						sd.conn.CloseWrite()
+						closeErr(sd, sd.conn.CloseWrite())
 					case "close":
 						if sd.closedAt < 0 {
 							sd.closedAt = len(sd.writes)
@@ -505,7 +524,7 @@ func execC34(t *testing.T, scAny any, keepLog bool) *Outcome {
 							markAbrupt(sd)
 						}
 						sd.localClose = true
-						sd.conn.Close()
+						closeErr(sd, sd.conn.Close())
 						return
 					}
 				}
